@@ -144,4 +144,14 @@ def main(argv=None) -> int:
 
 
 if __name__ == "__main__":
-    sys.exit(main())
+    try:
+        code = main()
+        sys.stdout.flush()
+    except BrokenPipeError:
+        # the reader closed the pipe (e.g. `| head`): the verdict is still the exit code
+        try:
+            sys.stdout.close()
+        except Exception:
+            pass
+        code = 2
+    sys.exit(code)
